@@ -904,6 +904,18 @@ Fixpoint kw_of_dict (kvs : list (value * value)) : option (list (string * value)
   end.
 
 
+(* the extra positional / named arguments supplied by *args and **kwargs  *)
+Definition star_args (star : option value) (w : world) : pres (list value) :=
+  match star with None => POk [] | Some v => elements v w end.
+Definition starstar_args (ss : option value) (w : world) : pres (list (string * value)) :=
+  match ss with
+  | None => POk []
+  | Some (VRef d) => match get_obj w d with
+                     | Some (ODict kvs _) => match kw_of_dict kvs with Some l => POk l | None => PErr end
+                     | _ => PErr end
+  | Some _ => PErr
+  end.
+
 (* x |= y *)
 Definition inplace_pipe (x y : value) (w : world) : pres (value * world) :=
   match x, y with VRef _, VRef _ => PUnsup "dict-union" | _, _ => binary BitOr x y w end.
